@@ -1,7 +1,7 @@
 (* C03 - basis functions and knot-span search satisfy their defining identities.
    This file only states the property theorems; proofs live under Proofs/ and Transfer/. *)
 From Coq Require Import List QArith Reals Qreals Lia Arith Bool.
-From NV Require Import Scalar.Ops Model.Common Model.Basis Model.Knots Proofs.Boehm Proofs.BasisR Proofs.KnotsR Proofs.EvalR Proofs.BinSearchR Proofs.DersSum5 Proofs.DersSum6 Proofs.GenerateR Transfer.BasisT.
+From NV Require Import Scalar.Ops Model.Common Model.Basis Model.Knots Proofs.Boehm Proofs.BasisR Proofs.KnotsR Proofs.EvalR Proofs.BinSearchR Proofs.DersSum5 Proofs.DersSum6 Proofs.GenerateR Proofs.BasisPos Transfer.BasisT.
 Import ListNotations.
 
 (* [G] all degrees, all sorted knot vectors with any multiplicities, all parameters in a non-empty span *)
@@ -109,6 +109,19 @@ Print Assumptions C03_generate_clamped_valid.
 Theorem C03_generate_rejects_zero : forall tol8 p n c, (p = 0 \/ n = 0)%nat -> generate Rops tol8 p n c = Rejected.
 Proof. intros tol8 p n c [-> | ->]; unfold generate; [reflexivity|]. rewrite Nat.eqb_refl, orb_true_r. reflexivity. Qed.
 Print Assumptions C03_generate_rejects_zero.
+
+(* [G] strictly inside a knot span every one of the p+1 non-vanishing basis functions is strictly positive *)
+Theorem C03_basis_strictly_positive_in_open_span : forall (U : list R) (u : R) (span p : nat),
+  sortedR U -> (knR U span < u < knR U (span + 1))%R -> (p <= span)%nat -> (span + p < length U)%nat -> (span + 1 < length U)%nat ->
+  Forall (fun x => (0 < x)%R) (basis_function Rops p U span u).
+Proof. intros U u span p Hs Hu. exact (bf_strictly_positive U u span Hs Hu p). Qed.
+Print Assumptions C03_basis_strictly_positive_in_open_span.
+
+(* [G] multiplicity = number of knots within the tolerance of the parameter (by definition of the model: a filter count) *)
+Theorem C03_find_multiplicity_spec : forall (tol u : R) (U : list R),
+  find_multiplicity Rops tol u U = length (filter (fun k => Rleb (oabs Rops (u - k)%R) tol) U).
+Proof. reflexivity. Qed.
+Print Assumptions C03_find_multiplicity_spec.
 
 (* non-vacuity: a concrete cubic knot vector with a double interior knot meets the hypotheses *)
 Example C03_hypotheses_satisfiable :
